@@ -7,7 +7,7 @@ from concurrent.futures import ThreadPoolExecutor
 from pipelines import pipeline, spec_must_hold, B1
 from vlib import Infra, LibraryPanic, CORES
 
-FAMILIES = 9
+FAMILIES = 10
 PRESETS = 7
 STARTS = ["xor", "rich", "random", "read", "outfirst", "notrait", "pool-notrait", "pool-rich"]
 
@@ -186,7 +186,7 @@ def quota_size_cases(ctx, replay, prop, pattern=r"population size|total|offsprin
 
 @pipeline("C02")
 def c02(ctx, replay):
-    ctx.rule = ("scenario matrix: 9 fitness families (all-zero, constant, linear, heavy-tailed, single dominant, stagnating, distinct "
+    ctx.rule = ("scenario matrix: 10 fitness families (finite values at the top of the float64 range whose sums over several species overflow, all-zero, constant, linear, heavy-tailed, single dominant, stagnating, distinct "
                 "random, structure-driven, tiny distinct positive values around 1e-7) x 7 option presets (many species / stolen babies / fast stagnation with delta coding / one "
                 "species with everybody surviving / heavy stealing with linear compatibility / mating-heavy with interspecies mating / "
                 "several long-lived mid-sized species with heavy stealing) x "
